@@ -35,8 +35,8 @@ func init() {
 			"reference evaluator models: lazy positions decided by the callee's formals at call time; apply/map bind already evaluated values; a lazy formal that is also the variadic tail is not generated",
 			"substitute is compared through (len (str (substitute #x))) only in programs without string/symbol literals (printing of quoted symbols is not modelled)",
 		},
-		NCases:  func(c *core.Ctx) int { return thorN(c, 4000, 60000) + len(c16Twins) + len(c16Fixed) },
-		MustSee: []string{"thunks_forced", "lazy_params", "strict_probes_seen", "alias_defs", "recursive_fns", "substitute_uses", "battery_calls", "lazy_strict_twins"},
+		NCases:  func(c *core.Ctx) int { return thorN(c, 4000, 60000) + len(c16Twins) + len(c16Fixed) + 1 },
+		MustSee: []string{"thunks_forced", "lazy_params", "strict_probes_seen", "alias_defs", "recursive_fns", "substitute_uses", "battery_calls", "lazy_strict_twins", "path_argument_calls"},
 		Run:     c16Run,
 	})
 }
@@ -79,6 +79,10 @@ var c16Fixed = []struct{ prog, want, trace string }{
 	{"(def saved nil) (defn keep [#x] (set saved #x) 0) (keep (+ later9 (tr 1 1))) (def later9 5) (list (force saved) (force saved))", "(6 6)", "1:1"},
 	{"(defn twice [#x] (+ (force #x) (force #x))) (twice (tr 1 10))", "20", "1:10"},
 	{"(defn never [#x y] y) (never (tr 1 (/ 1 0)) 3)", "3", ""},
+	// dot-path arguments of a self call in tail position denote the caller's values, not the next iteration's
+	{"(defn f [v h n] (cond (== n 0) v (f h.a (hash a: (+ n 100)) (- n 1)))) (f 0 (hash a: 5) 3)", "102", ""},
+	{"(defn f [h v n] (cond (== n 0) v (f (hash a: (+ n 100)) h.a (- n 1)))) (f (hash a: 5) 0 3)", "102", ""},
+	{"(defn f [v h n] (cond (== n 0) v (let [w 1] (f h.a (hash a: (+ n 100 (tr 1 n))) (- n 1))))) (f 0 (hash a: 5) 2)", "104", "1:2,1:1"},
 	// several evaluations on one interpreter (separated by |): a stashed lazy argument whose first forces fail
 	{"(def saved nil) (defn keep [#x] (set saved #x) 0) (keep (+ later9 (tr 1 1))) | (force saved) | (force saved) | (def later9 5) (list (force saved) (force saved))", "0|ERR|ERR|(6 6)", "1:1"},
 	{"(def saved nil) (defn keep [#x] (set saved #x) 0) (keep (aget arr9 (tr 1 2))) | (def arr9 [1]) (force saved) | (def arr9 [1 2 3]) (force saved) | (force saved)", "0|ERR|3|3", "1:2,1:2"},
@@ -109,6 +113,9 @@ func c16TwinRun(c *core.Ctx, k int) *core.Result {
 
 func c16Run(c *core.Ctx, i int) *core.Result {
 	if base := thorN(c, 4000, 60000) + len(c16Twins); i >= base {
+		if i-base >= len(c16Fixed) {
+			return c16PathCase(c)
+		}
 		f := c16Fixed[i-base]
 		res := &core.Result{Input: f.prog, Hash: core.HashOf(f.prog), Nontrivial: true}
 		s := NewSutRun(true)
